@@ -71,7 +71,8 @@ pub fn snapshot(vfs: &Memfs) -> String {
     ents.sort();
     let mut data: Vec<String> = s.files.iter().map(|(k, d)| format!("{}:{}", hp(k), hex(d))).collect();
     data.sort();
-    format!("cwd={};root={};E{{{}}};D{{{}}}", hp(&s.cwd), hp(&s.root), ents.join(";"), data.join(";"))
+    // the model side appends the verdict of the extracted WF checker on the (identical) state
+    format!("cwd={};root={};E{{{}}};D{{{}}};wf=1", hp(&s.cwd), hp(&s.root), ents.join(";"), data.join(";"))
 }
 
 fn lines_arg(h: &str) -> Vec<String> {
